@@ -26,9 +26,10 @@ func ParseProgram(p *ParserZH) *syntax.Program {
 		p.unsetStmtCompleteFlag()
 		switch hState {
 		case stateImportBlock:
-			if match, _ := p.tryConsume(TypeImportW); match {
+			if match, tk := p.tryConsume(TypeImportW); match {
 				// parse import statement
 				stmt := ParseImportStmt(p)
+				p.setStmtCurrentLine(stmt, tk)
 				program.ImportBlock = append(program.ImportBlock, stmt)
 			} else {
 				hState = stateExecBlock
